@@ -189,14 +189,11 @@ fn vq_c15_keyset_encryption_phase_generation() {
     assert!(ks_encryption_key_not_older(old), "C15/keyset.encryption_phase/never_selects_a_key_older_than_current");
 }
 
-/// Kani does not support the `caller_location` intrinsic behind `core::panic::Location::caller()`, which
-/// `connection::Error::from_transport_error` (#[track_caller]) uses to fill the debug-only `source` field of the
-/// error value.  The decrypt harnesses replace it by a reference to a dummy static (assumption A-location: the
-/// `source` field is never read by the code under contract nor by the obligations).
-static C15_DUMMY_LOCATION: [u64; 8] = [0; 8];
-fn stub_location_caller() -> &'static core::panic::Location<'static> {
-    unsafe { &*(&C15_DUMMY_LOCATION as *const [u64; 8] as *const core::panic::Location<'static>) }
-}
+// Kani does not support the `caller_location` intrinsic behind `core::panic::Location::caller()`, which
+// `connection::Error::from_transport_error` (#[track_caller]) uses to fill the debug-only `source` field of the
+// error value.  The decrypt harnesses replace it by a reference to a dummy static (assumption A-location: the
+// `source` field is never read by the code under contract nor by the obligations).  The stub body needs one
+// `unsafe` cast and crypto/mod.rs carries #![forbid(unsafe_code)], so it lives in c15_timestamp_helper.rs.
 
 /// the short-header packet of the decrypt harnesses: 1 tag byte, 4-byte DCID, 2-byte packet number, 3 payload
 /// bytes.  Concrete shape; symbolic spin / reserved / key-phase bits, packet-number bytes and payload.
@@ -249,7 +246,6 @@ struct DecryptRun {
     auth: bool,
     reserved_clear: bool,
     pn: u64,
-    pto: Timestamp,
     timer_at_pto: bool,
     timer_unchanged: bool,
 }
@@ -296,7 +292,6 @@ fn run_decrypt(only_update_in_progress_other_phase: bool) -> DecryptRun {
         auth: if pkt_phase == 0 { ok0 } else { ok1 },
         reserved_clear: tag & 0b0001_1000 == 0,
         pn,
-        pto,
         timer_at_pto: ks.key_derivation_timer == Timer::from(Some(pto)),
         timer_unchanged: ks.key_derivation_timer == timer_before,
     }
@@ -309,7 +304,7 @@ fn run_decrypt(only_update_in_progress_other_phase: bool) -> DecryptRun {
 //@ fn KeySet::key_update_in_progress
 #[kani::proof]
 #[kani::unwind(12)]
-#[kani::stub(core::panic::Location::caller, stub_location_caller)]
+#[kani::stub(core::panic::Location::caller, crate::time::timestamp::aws_s2n_quic_verif_c15_timestamp_helper::verif_c15_stub_location_caller)]
 fn vq_c15_keyset_decrypt_packet() {
     // every case except "update in progress and the packet carries the other key phase" (next harness)
     let t = run_decrypt(false);
@@ -363,7 +358,7 @@ fn vq_c15_keyset_decrypt_packet() {
 //@ fn KeySet::decrypt_packet
 #[kani::proof]
 #[kani::unwind(12)]
-#[kani::stub(core::panic::Location::caller, stub_location_caller)]
+#[kani::stub(core::panic::Location::caller, crate::time::timestamp::aws_s2n_quic_verif_c15_timestamp_helper::verif_c15_stub_location_caller)]
 fn vq_c15_keyset_decrypt_previous_key() {
     // a key update is in progress (derivation timer armed: the non-active slot still holds the PREVIOUS key)
     // and the packet carries the previous key phase -- a packet delayed across the update (RFC 9001 6.5)
